@@ -948,6 +948,12 @@ func (c *depCtx) compute(v ssa.Value) src {
 			if fa, ok := x.X.(*ssa.FieldAddr); ok {
 				tn, f, _, _ := fieldOf(fa)
 				d |= fieldSource(tn, f)
+				if isLocalRecord(fa.X.Type()) {
+					// a record of the generator's own (carried state): one member at a time
+					if rd, ok := c.recordFieldDeps(fa.X, fa.Field, 0); ok {
+						return d | rd
+					}
+				}
 				if _, isAlloc := addrRoot(fa.X).(*ssa.Alloc); isAlloc {
 					return d | c.deps(addrRoot(fa.X))
 				}
@@ -961,6 +967,11 @@ func (c *depCtx) compute(v ssa.Value) src {
 		return c.deps(x.X)
 	case *ssa.Field:
 		tn, f, _, _ := fieldOf(x)
+		if isLocalRecord(x.X.Type()) {
+			if d, ok := c.recordFieldDeps(x.X, x.Field, 0); ok {
+				return fieldSource(tn, f) | d
+			}
+		}
 		return fieldSource(tn, f) | c.deps(x.X)
 	case *ssa.FieldAddr:
 		return c.deps(x.X)
@@ -1066,7 +1077,26 @@ func (c *depCtx) callDeps(call *ssa.Call) src {
 		// is judged at its own sites (parameters are bound to their call-site arguments there)
 		return d
 	}
-	for _, a := range cc.Args {
+	for i, a := range cc.Args {
+		// a carried record handed to a repo helper counts through the members the helper reads
+		if isLocalRecord(a.Type()) && f.Blocks != nil && i < len(f.Params) && c.m.w.isSubjectFunc(f) {
+			if idxs, all := fieldsReadOfParam(f, f.Params[i]); !all {
+				okAll := true
+				var rd src
+				for _, fi := range idxs {
+					r, ok := c.recordFieldDeps(a, fi, 0)
+					if !ok {
+						okAll = false
+						break
+					}
+					rd |= r
+				}
+				if okAll {
+					d |= rd
+					continue
+				}
+			}
+		}
 		d |= c.deps(a)
 	}
 	if c.m.facts[f] != nil || (c.m.w.isSubjectFunc(f) && f.Blocks != nil) {
@@ -1644,6 +1674,18 @@ func (m *matrix) siteDeps(s site, u *unit) (data, ctrl src) {
 	c.bindParams = true
 	data = c.deps(s.val) &^ sNAME
 	ctrl = c.ctrlDeps(s.instr.Block()) &^ sNAME
+	if dbg := os.Getenv("FINLINT_DEBUG_SITE"); dbg != "" && strings.Contains(fnKey(s.fn), dbg) && u != nil {
+		fmt.Printf("DBG site %s %s unit=%s data=%s ctrl=%s val=%s\n", fnKey(s.fn), m.w.instrPos(s.instr), u, data, ctrl, s.val)
+		if call, ok := s.val.(*ssa.Call); ok {
+			for _, a := range call.Call.Args {
+				for _, v := range variadicOperands(a) {
+					if v != nil {
+						fmt.Printf("DBG    operand %s = %s deps=%s\n", v.Name(), v, c.deps(v))
+					}
+				}
+			}
+		}
+	}
 	return
 }
 
@@ -1904,4 +1946,222 @@ func (m *matrix) unitGroups(fns []*ssa.Function, u unit) []groupDeps {
 
 func sortFuncsByName(fs []*ssa.Function) {
 	sort.Slice(fs, func(i, j int) bool { return fnKey(fs[i]) < fnKey(fs[j]) })
+}
+
+// isLocalRecord: t is (a pointer to) a named struct declared in the parser package that is neither a generator nor a visitor: a
+// record the code uses to carry state between its own functions.
+func isLocalRecord(t types.Type) bool {
+	if p, ok := t.Underlying().(*types.Pointer); ok {
+		t = p.Elem()
+	}
+	n := namedOf(t)
+	if n == nil || n.Obj().Pkg() == nil || n.Obj().Pkg().Path() != parserPath {
+		return false
+	}
+	if _, ok := n.Underlying().(*types.Struct); !ok {
+		return false
+	}
+	name := n.Obj().Name()
+	if strings.HasSuffix(name, "Generator") || strings.HasSuffix(name, "Impl") || strings.HasSuffix(name, "Formattor") || strings.HasSuffix(name, "Type") {
+		return false
+	}
+	return true
+}
+
+// recordFieldDeps: what member idx of the record value (or pointer) v depends on - member by member, through helper returns,
+// local variables, phis and parameters (joined over the call sites). ok=false: not understood, use the whole-object taint.
+func (c *depCtx) recordFieldDeps(v ssa.Value, idx int, depth int) (d0 src, ok0 bool) {
+	if depth > 14 || v == nil {
+		return 0, false
+	}
+	if os.Getenv("FINLINT_DEBUG_RECORD") != "" {
+		defer func() { fmt.Printf("DBG record %s%s idx=%d -> %s %v\n", strings.Repeat("  ", depth), v, idx, d0, ok0) }()
+	}
+	switch x := v.(type) {
+	case *ssa.Call:
+		h := x.Call.StaticCallee()
+		if h == nil || h.Blocks == nil || !c.m.w.isSubjectFunc(h) {
+			return 0, false
+		}
+		cc := c.m.ctx(h, c.u)
+		cc.bindParams = c.bindParams
+		var d src
+		n := 0
+		for _, b := range h.Blocks {
+			ret, ok := b.Instrs[len(b.Instrs)-1].(*ssa.Return)
+			if !ok || len(ret.Results) != 1 || !c.m.feasible(h, b, c.u) {
+				continue
+			}
+			r, ok := cc.recordFieldDeps(ret.Results[0], idx, depth+1)
+			if !ok {
+				return 0, false
+			}
+			n++
+			d |= r
+		}
+		return d, n > 0
+	case *ssa.UnOp:
+		if x.Op == token.MUL {
+			return c.recordFieldDeps(x.X, idx, depth+1)
+		}
+		return 0, false
+	case *ssa.Alloc:
+		if x.Referrers() == nil {
+			return 0, false
+		}
+		var d src
+		for _, ref := range *x.Referrers() {
+			switch y := ref.(type) {
+			case *ssa.Store:
+				if y.Addr != ssa.Value(x) {
+					return 0, false // the record's address is stored somewhere
+				}
+				if !c.blockOK(y) {
+					continue
+				}
+				if r, ok := c.recordFieldDeps(y.Val, idx, depth+1); ok {
+					d |= r
+				} else if _, isConst := y.Val.(*ssa.Const); !isConst {
+					d |= c.deps(y.Val)
+				}
+			case *ssa.FieldAddr:
+				if y.Field != idx || y.Referrers() == nil {
+					continue
+				}
+				for _, r2 := range *y.Referrers() {
+					if st, ok := r2.(*ssa.Store); ok && st.Addr == ssa.Value(y) && c.blockOK(st) {
+						d |= c.deps(st.Val)
+						if st.Block() != x.Block() {
+							d |= c.ctrlDeps(st.Block())
+						}
+					}
+				}
+			case *ssa.UnOp, *ssa.DebugRef:
+			case ssa.CallInstruction:
+				// handed to a function by address: fine when that function does not write through it
+				g := y.Common().StaticCallee()
+				if g == nil || g.Blocks == nil {
+					return 0, false
+				}
+				for i, a := range y.Common().Args {
+					if a == ssa.Value(x) && i < len(g.Params) && writesThroughParam(g, g.Params[i]) {
+						return 0, false
+					}
+				}
+			default:
+				return 0, false
+			}
+		}
+		return d, true
+	case *ssa.Phi:
+		var d src
+		for i, e := range x.Edges {
+			if !c.m.feasible(c.fn, x.Block().Preds[i], c.u) {
+				continue
+			}
+			r, ok := c.recordFieldDeps(e, idx, depth+1)
+			if !ok {
+				return 0, false
+			}
+			d |= r
+		}
+		return d, true
+	case *ssa.Parameter:
+		if !c.bindParams {
+			return 0, true
+		}
+		fn := x.Parent()
+		pidx := -1
+		for i, q := range fn.Params {
+			if q == x {
+				pidx = i
+			}
+		}
+		var d src
+		n := 0
+		for _, site := range c.m.callers[fn] {
+			args := site.Common().Args
+			if pidx < 0 || pidx >= len(args) {
+				continue
+			}
+			caller := site.Parent()
+			if c.m.facts[caller] == nil {
+				continue
+			}
+			if c.u != nil && !c.m.feasible(caller, site.Block(), c.u) {
+				continue
+			}
+			cc := c.m.ctx(caller, c.u)
+			cc.bindParams = true
+			r, ok := cc.recordFieldDeps(args[pidx], idx, depth+1)
+			if !ok {
+				return 0, false
+			}
+			n++
+			d |= r
+		}
+		return d, n > 0
+	case *ssa.MakeInterface, *ssa.ChangeType:
+		return 0, false
+	}
+	return 0, false
+}
+
+// writesThroughParam: fn stores through the pointer parameter p (directly).
+func writesThroughParam(fn *ssa.Function, p *ssa.Parameter) bool {
+	w := false
+	forEachInstr(fn, func(_ *ssa.BasicBlock, ins ssa.Instruction) {
+		if st, ok := ins.(*ssa.Store); ok && addrRoot(st.Addr) == ssa.Value(p) {
+			w = true
+		}
+	})
+	return w
+}
+
+// fieldsReadOfParam: the member indices of record parameter p that fn reads; all=true when the record is used whole (passed on,
+// stored, returned, compared).
+func fieldsReadOfParam(fn *ssa.Function, p *ssa.Parameter) (idxs []int, all bool) {
+	seen := map[int]bool{}
+	var visit func(v ssa.Value, depth int)
+	visit = func(v ssa.Value, depth int) {
+		refs := v.Referrers()
+		if refs == nil || depth > 3 {
+			return
+		}
+		for _, ref := range *refs {
+			switch x := ref.(type) {
+			case *ssa.Field:
+				seen[x.Field] = true
+			case *ssa.FieldAddr:
+				seen[x.Field] = true
+			case *ssa.DebugRef:
+			case *ssa.Store:
+				// a by-value receiver spilled into a local: follow the local
+				if x.Val == v {
+					if al, ok := x.Addr.(*ssa.Alloc); ok {
+						visit(al, depth+1)
+						continue
+					}
+				}
+				if x.Addr == v {
+					continue // the spill itself
+				}
+				all = true
+			case *ssa.UnOp:
+				if x.Op == token.MUL {
+					visit(x, depth+1)
+				} else {
+					all = true
+				}
+			default:
+				all = true
+			}
+		}
+	}
+	visit(p, 0)
+	for i := range seen {
+		idxs = append(idxs, i)
+	}
+	sort.Ints(idxs)
+	return idxs, all
 }
